@@ -6,7 +6,8 @@ import Py4hwV.Emit.Hier
      hsrc <sexp>       the imported description (harness/c01.py export_hier)                      -> ok | parse-error
      check             parsed text = `HierSrc.emit` (decidable equality) and every condition of `CertSrc.checks` on
                        `HierSrc.cert` (the sources-first order of the assigns is computed here and stored in `vorder`)
-                       -> ok | text-differs … | fails <names of failed conditions> -/
+                       and `HierSrc.modsOKb` -> ok | text-differs … | fails <names of failed conditions>
+     repr              the Lean terms of the description and of the parsed text (used to write the examples of Props/C01Hier.lean) -/
 open Proto V FlatM
 
 structure Sess where
@@ -40,6 +41,10 @@ def toKind : List SExp → Option Kind
 def toGKind : List SExp → Option GKind
   | [.atom "bitsL", a, .list bits] => do some (.bitsL (← nat? a) (← nats? bits))
   | [.atom "bitsM", a, .list bits] => do some (.bitsM (← nat? a) (← nats? bits))
+  | [.atom "nary", .atom op, .list ins, r, .list ts, mid] => do
+      let o ← (match op with | "and" => some NOp.and | "or" => some NOp.or | "nor" => some NOp.nor | _ => none)
+      some (.nary o (← nats? ins) (← nat? r) (← nats? ts) (← nat? mid))
+  | [.atom "dm", m, a, b, r] => do some (.dm ((← nat? m) != 0) (← nat? a) (← nat? b) (← nat? r))
   | [.atom "nand2", a, b, r, t] => do some (.nand2 (← nat? a) (← nat? b) (← nat? r) (← nat? t))
   | [.atom "nor2", a, b, r, t] => do some (.nor2 (← nat? a) (← nat? b) (← nat? r) (← nat? t))
   | [.atom "xor2", a, b, r, m, x, y, m0, m1, m2, m3] => do
@@ -109,9 +114,13 @@ def stepS (ss : Sess) (line : String) : Sess × String :=
     match ss.d, ss.s with
     | some d, some s =>
       if d = s.emit then
-        let bad := s.cert.checks.filter (fun c => !c.2)
+        let bad := (("mods", s.modsOKb) :: s.cert.checks).filter (fun c => !c.2)
         if bad.isEmpty then (ss, "ok") else (ss, "fails " ++ ",".intercalate (bad.map (·.1)))
       else (ss, "text-differs " ++ ((firstDiff d s.emit).replace "\n" " "))
+    | _, _ => (ss, "bad-op")
+  else if line == "repr" then
+    match ss.d, ss.s with
+    | some d, some s => (ss, ((reprStr s).replace "\n" " ") ++ " /// " ++ ((reprStr d).replace "\n" " "))
     | _, _ => (ss, "bad-op")
   else (ss, "bad-op")
 
